@@ -379,6 +379,14 @@ type StreamCase struct {
 	WriteTimeoutMs int `json:"write_timeout_ms,omitempty"`
 	// ReadTimeout: the association is served by a Server with a ReadTimeout (5 s, never reached here).
 	ReadTimeout bool `json:"read_timeout,omitempty"`
+	// Arrival (non-empty: the requests are on pairwise distinct streams and carry distinct hop-by-hop
+	// ids): the requests do not arrive one after the other but interleaved, in chunks. A request whose
+	// Split is > 0 arrives in two chunks (Split 20: the header, then the body), the others in one;
+	// Arrival lists request indices, the k-th occurrence of i standing for the k-th chunk of request
+	// i. While the rest of one request is outstanding, whole requests (or beginnings) of other
+	// streams arrive; the library sets them aside per stream and serves them afterwards, in an order
+	// of its own - every recorded write is paired with its request by the hop-by-hop id.
+	Arrival []int `json:"arrival,omitempty"`
 }
 
 // HReq is one request for the plain handler.
@@ -387,6 +395,9 @@ type HReq struct {
 	CmdIdx int    `json:"cmd"` // index into the request commands of dict.Default
 	RC     uint32 `json:"rc"`
 	Via    string `json:"via"` // WriteTo | Write
+	// Bare: the request is a header without any AVP (20 bytes); the handler answers it with
+	// Answer(2001) through WriteTo.
+	Bare bool `json:"bare,omitempty"`
 }
 
 var (
@@ -414,6 +425,9 @@ func (r *HReq) image() []byte {
 		via = 1
 	}
 	p := append([]byte{via, 0, 0, 0}, refcodec.U32(r.RC)...)
+	if r.Bare {
+		return refcodec.EncodeMessage(refcodec.Header{Version: 1, Flags: r.Flags, Code: cmd.Code, App: cmd.App, HopByHop: r.HbH, EndToEnd: r.E2E}, nil, false)
+	}
 	return refcodec.EncodeMessage(refcodec.Header{Version: 1, Flags: r.Flags, Code: cmd.Code, App: cmd.App, HopByHop: r.HbH, EndToEnd: r.E2E},
 		[]*refcodec.Node{{Code: viaAVP, Flags: 0, Payload: p}}, false)
 }
@@ -426,8 +440,44 @@ func feedSCTP(be *memnet.SCTP, r Req, img []byte) {
 	}
 }
 
+// sctpChunks: the chunks one request arrives in.
+func sctpChunks(r Req, img []byte) []memnet.Chunk {
+	if r.Split > 0 && r.Split < len(img) {
+		return []memnet.Chunk{{Stream: r.Stream, Data: img[:r.Split]}, {Stream: r.Stream, Data: img[r.Split:]}}
+	}
+	return []memnet.Chunk{{Stream: r.Stream, Data: img}}
+}
+
+// feedArrival feeds the chunks of all requests in the order the case prescribes.
+func feedArrival(be *memnet.SCTP, reqs []Req, images [][]byte, arrival []int) *ev.Failure {
+	chunks := make([][]memnet.Chunk, len(reqs))
+	streams, ids := map[uint16]bool{}, map[uint32]bool{}
+	for i, r := range reqs {
+		chunks[i] = sctpChunks(r, images[i])
+		if streams[r.Stream] || ids[r.HbH] {
+			return ev.Failf("harness-case", "interleaved arrival needs pairwise distinct streams and hop-by-hop ids (request %d: stream %d, id %#x)", i, r.Stream, r.HbH)
+		}
+		streams[r.Stream], ids[r.HbH] = true, true
+	}
+	next := make([]int, len(reqs))
+	for _, i := range arrival {
+		if i < 0 || i >= len(reqs) || next[i] >= len(chunks[i]) {
+			return ev.Failf("harness-case", "arrival %v does not list the chunks of the %d requests", arrival, len(reqs))
+		}
+		be.Feed(chunks[i][next[i]])
+		next[i]++
+	}
+	for i := range reqs {
+		if next[i] != len(chunks[i]) {
+			return ev.Failf("harness-case", "arrival %v does not list the chunks of the %d requests", arrival, len(reqs))
+		}
+	}
+	return nil
+}
+
 func runStream(c StreamCase) *ev.Failure {
 	be := memnet.NewSCTP()
+	interleaved := len(c.Arrival) > 0
 	type keptReq struct {
 		conn diam.Conn
 		m    *diam.Message
@@ -450,8 +500,15 @@ func runStream(c StreamCase) *ev.Failure {
 		machine := c.SM.machine()
 		d = startDrain(machine.ErrorReports())
 		handler = machine
+		if interleaved {
+			if f := feedArrival(be, reqs, images, c.Arrival); f != nil {
+				return f
+			}
+		}
 		for i, img := range images {
-			feedSCTP(be, reqs[i], img)
+			if !interleaved {
+				feedSCTP(be, reqs[i], img)
+			}
 			if i == 0 {
 				codes = append(codes, codeCER)
 			} else {
@@ -461,14 +518,25 @@ func runStream(c StreamCase) *ev.Failure {
 	default:
 		mux := diam.NewServeMux()
 		d = startDrain(mux.ErrorReports())
+		bare := map[uint32]bool{} // hop-by-hop ids of the requests sent without any AVP
+		for _, r := range c.Reqs {
+			if r.Bare {
+				bare[r.HbH] = true
+			}
+		}
 		mux.HandleFunc("ALL", func(conn diam.Conn, m *diam.Message) {
 			var err error
 			fail := func(s string) { hmu.Lock(); herr = append(herr, s); hmu.Unlock() }
-			if len(m.AVP) != 1 || m.AVP[0].Code != viaAVP {
-				fail(fmt.Sprintf("request without the instruction AVP: %v", m))
-				return
+			var p []byte
+			if len(m.AVP) == 0 && bare[m.Header.HopByHopID] {
+				p = append([]byte{0, 0, 0, 0}, refcodec.U32(2001)...)
+			} else {
+				if len(m.AVP) != 1 || m.AVP[0].Code != viaAVP {
+					fail(fmt.Sprintf("request without the instruction AVP: %v", m))
+					return
+				}
+				p = m.AVP[0].Data.Serialize()
 			}
-			p := m.AVP[0].Data.Serialize()
 			if len(p) != 8 {
 				fail(fmt.Sprintf("instruction AVP of %d bytes", len(p)))
 				return
@@ -499,6 +567,7 @@ func runStream(c StreamCase) *ev.Failure {
 			}
 		})
 		handler = mux
+		var images [][]byte
 		for i := range c.Reqs {
 			r := &c.Reqs[i]
 			cmd := requestCmds()[r.CmdIdx%len(requestCmds())]
@@ -506,7 +575,16 @@ func runStream(c StreamCase) *ev.Failure {
 			rq.App = cmd.App
 			reqs, names = append(reqs, rq), append(names, "answer")
 			codes = append(codes, cmd.Code)
-			feedSCTP(be, r.Req, r.image())
+			if interleaved {
+				images = append(images, r.image())
+			} else {
+				feedSCTP(be, r.Req, r.image())
+			}
+		}
+		if interleaved {
+			if f := feedArrival(be, reqs, images, c.Arrival); f != nil {
+				return f
+			}
 		}
 	}
 	defer d.end()
@@ -549,6 +627,10 @@ func runStream(c StreamCase) *ev.Failure {
 			hmu.Unlock()
 			if n == len(reqs) {
 				break
+			}
+			if interleaved && be.IsClosed() {
+				// the loop gave up on the association before it had served every request
+				return ev.Failf("answer-interleaved-missing", "%d requests arrived interleaved on %d streams (chunk order %v), %d reached the handler before the library closed the association%s", len(reqs), len(reqs), c.Arrival, n, d.text())
 			}
 			if time.Now().After(deadline) {
 				be.Close()
@@ -597,11 +679,15 @@ func runStream(c StreamCase) *ev.Failure {
 		return ev.Failf("harness-handler", "%s", strings.Join(herr, " | "))
 	}
 	writes := be.Writes()
+	if interleaved && len(writes) != len(reqs) {
+		return ev.Failf("answer-interleaved-missing", "%d requests arrived interleaved on %d streams (chunk order %v) and %d answers were written%s", len(reqs), len(reqs), c.Arrival, len(writes), d.text())
+	}
 	if len(writes) != len(reqs) {
 		return ev.Failf("harness-no-answer", "%d requests were delivered and %d writes recorded%s", len(reqs), len(writes), d.text())
 	}
 	byHbH := map[uint32]int{}
-	if late && c.Concurrent {
+	paired := late && c.Concurrent || interleaved
+	if paired {
 		for i, r := range reqs {
 			byHbH[r.HbH] = i
 		}
@@ -612,8 +698,9 @@ func runStream(c StreamCase) *ev.Failure {
 		if err != nil || int(h.Length) != len(w.Data) {
 			return ev.Failf("harness-no-answer", "write %d is not one whole message: %d bytes, header %+v, %v", i, len(w.Data), h, err)
 		}
-		if late && c.Concurrent {
-			// the answers were written at the same time, so their order is free: pair by hop-by-hop id
+		if paired {
+			// the answers were written at the same time (or the requests were served in an order the
+			// library chose among the ones it had set aside), so their order is free: pair by hop-by-hop id
 			j, ok := byHbH[h.HopByHop]
 			if !ok || answered[j] {
 				return ev.Failf("answer-unpaired", "write %d carries hop-by-hop id %#x: no request, or a second answer to one request%s", i, h.HopByHop, d.text())
@@ -666,7 +753,101 @@ func genStream(t *rapid.T) StreamCase {
 		c.WriteTimeoutMs = rapid.IntRange(1, 50).Draw(t, "write-timeout-ms")
 	}
 	c.ReadTimeout = rapid.IntRange(0, 3).Draw(t, "read-timeout") == 0
+	if !c.Concurrent && rapid.IntRange(0, 2).Draw(t, "interleaved-arrival") == 0 {
+		interleave(t, &c)
+	}
 	return c
+}
+
+// interleave turns the case into one whose requests arrive interleaved on three or more streams:
+// distinct streams and hop-by-hop ids, most requests in two chunks (header, then body), and an
+// arrival order in which whole requests of other streams come between the chunks of one request.
+func interleave(t *rapid.T, c *StreamCase) {
+	var reqs []*Req
+	if c.SM != nil {
+		if !c.SM.accepted() {
+			return
+		}
+		for i := 0; len(c.SM.DWRs) < 2; i++ {
+			c.SM.DWRs = append(c.SM.DWRs, genReq(t, fmt.Sprintf("extra-dwr%d", i)))
+		}
+		reqs = append(reqs, &c.SM.CER)
+		for i := range c.SM.DWRs {
+			reqs = append(reqs, &c.SM.DWRs[i])
+		}
+	} else {
+		want := rapid.IntRange(3, 8).Draw(t, "interleaved-requests")
+		base := len(c.Reqs)
+		for i := 0; len(c.Reqs) < want; i++ {
+			c.Reqs = append(c.Reqs, c.Reqs[i%base])
+		}
+		for i := range c.Reqs {
+			reqs = append(reqs, &c.Reqs[i].Req)
+		}
+	}
+	used := map[uint16]bool{}
+	var tokens []int
+	for i, r := range reqs {
+		r.HbH = 0x52000000 + uint32(i)
+		if c.SM == nil && rapid.Bool().Draw(t, "nearby-stream") {
+			r.Stream = uint16(rapid.IntRange(0, 15).Draw(t, "stream"))
+		}
+		for used[r.Stream] {
+			r.Stream++
+		}
+		used[r.Stream] = true
+		switch rapid.IntRange(0, 4).Draw(t, "chunking") {
+		case 0:
+			r.Split = 0
+		case 1:
+			r.Split = rapid.IntRange(1, 35).Draw(t, "split-at")
+		default:
+			r.Split = 20 // the header, then the body
+		}
+		if c.SM == nil && rapid.IntRange(0, 3).Draw(t, "bare-header") == 0 {
+			// a request that is a header only: whole, or cut inside the header
+			c.Reqs[i].Bare = true
+			if r.Split >= 20 {
+				r.Split = 0
+			}
+		}
+		tokens = append(tokens, i)
+		if r.Split > 0 {
+			tokens = append(tokens, i)
+		}
+	}
+	if c.SM != nil || rapid.Bool().Draw(t, "bracket") {
+		// one request is outstanding while all the others arrive
+		x := 0
+		if c.SM == nil {
+			x = rapid.IntRange(0, len(reqs)-1).Draw(t, "outstanding")
+		}
+		if reqs[x].Split == 0 {
+			reqs[x].Split = 20
+			if c.SM == nil && c.Reqs[x].Bare {
+				reqs[x].Split = rapid.IntRange(1, 19).Draw(t, "bare-split-at")
+			}
+		}
+		var rest []int
+		for i, r := range reqs {
+			if i == x {
+				continue
+			}
+			rest = append(rest, i)
+			if r.Split > 0 {
+				rest = append(rest, i)
+			}
+		}
+		c.Arrival = append([]int{x}, rapid.Permutation(rest).Draw(t, "arrival")...)
+		// (state machine: sometimes the rest of the CER comes earlier than last)
+		at := len(c.Arrival)
+		if rapid.IntRange(0, 3).Draw(t, "bracket-closes-early") == 0 {
+			at = rapid.IntRange(1, len(c.Arrival)).Draw(t, "bracket-closes-at")
+		}
+		c.Arrival = append(c.Arrival[:at], append([]int{x}, c.Arrival[at:]...)...)
+		return
+	}
+	c.Arrival = rapid.Permutation(tokens).Draw(t, "arrival")
 }
 
 func genStreamBase(t *rapid.T) StreamCase {
@@ -742,6 +923,32 @@ func classifyStream(c StreamCase) (bool, []string) {
 	if changes {
 		cl["stream-changes-between-requests"] = true
 	}
+	if len(c.Arrival) > 0 {
+		cl["requests-interleaved-in-chunks"] = true
+		// the most streams that deliver something while one request is outstanding
+		first, last := map[int]int{}, map[int]int{}
+		for pos, i := range c.Arrival {
+			if _, ok := first[i]; !ok {
+				first[i] = pos
+			}
+			last[i] = pos
+		}
+		most := 0
+		for i := range first {
+			others := map[int]bool{}
+			for _, j := range c.Arrival[first[i]:last[i]] {
+				if j != i {
+					others[j] = true
+				}
+			}
+			if len(others) > most {
+				most = len(others)
+			}
+		}
+		if most >= 2 {
+			cl["a-request-outstanding-while->=2-other-streams-deliver"] = true
+		}
+	}
 	if c.ReadTimeout {
 		cl["server-with-read-timeout"] = true
 	}
@@ -757,6 +964,7 @@ var streamProp = ev.Register(&ev.Prop[StreamCase]{
 	Rule: "an in-memory SCTP association served by diam.NewConn: either 1..6 requests (any request command of dict.Default, generated ids and flags), each on a stream 0..15, whole or in two pieces, answered by a handler (which first forwards some of them with WriteToStream to another writer and stream, as a relay does) " +
 		"with m.Answer(rc) written through WriteTo(conn) or through Serialize + conn.Write; or a server state machine receiving a CER (accepted / rejected) and DWRs, each on its own stream; 1 in 4 cases each the association is served by a Server with a WriteTimeout and / or a ReadTimeout. " +
 		"Demanded: the k-th write recorded by the backend is the answer to the k-th request and carries that request's stream number (state machine: also the mirrored header as in sm-wire). " +
+		"1 in 3 cases (3..8 requests, or CER + >= 2 DWRs) the requests arrive INTERLEAVED: on pairwise distinct streams, most in two chunks (header, then body; or cut anywhere; 1 in 4 of the handler's requests is a bare 20-byte header), in a drawn chunk order in which whole requests and beginnings of other streams arrive while the rest of one request is outstanding (often: one request brackets all the others); the library serves the set-aside requests in an order of its own, so each answer is paired with its request by a distinct hop-by-hop id and must be recorded on that request's stream, every request answered once. " +
 		"Late answers: the handler keeps the requests and the application answers them afterwards, in order or (8..96 requests with distinct hop-by-hop ids) all at once from a goroutine each; then every request has exactly one answer, paired by that id, on its stream. " +
 		"non-trivial = some request arrives on a stream other than 0",
 	Gen: genStream, Run: runStream, Classify: classifyStream, Attempts: 5,
@@ -784,6 +992,26 @@ var concStreamProp = ev.Register(&ev.Prop[StreamCase]{
 	},
 	Attempts: 5,
 })
+
+// One request outstanding (header delivered, body not yet) while whole requests arrive on two
+// and on four other streams: plain handler and state machine (hand-written regression cases).
+func TestC16StreamInterleavedCanonical(t *testing.T) {
+	h := func(i int, stream uint16, split int) HReq {
+		return HReq{Req: Req{HbH: 0x52000000 + uint32(i), E2E: 0x1000 + uint32(i)*8, Flags: rFlag, Stream: stream, Split: split}, CmdIdx: i, RC: 2001, Via: "WriteTo"}
+	}
+	streamProp.One(t, StreamCase{Reqs: []HReq{h(0, 3, 20), h(1, 5, 0), h(2, 7, 0)}, Arrival: []int{0, 1, 2, 0}})
+	streamProp.One(t, StreamCase{Reqs: []HReq{h(0, 9, 20), h(1, 0, 0), h(2, 65535, 20), h(3, 4, 0), h(4, 2, 7)}, Arrival: []int{0, 2, 1, 4, 3, 2, 4, 0}})
+	streamProp.One(t, StreamCase{Reqs: []HReq{h(0, 3, 20), h(1, 5, 0), h(2, 7, 0)}, Arrival: []int{0, 2, 1, 0}, Late: true})
+	// the requests that are set aside are headers only
+	b := func(i int, stream uint16, split int) HReq { r := h(i, stream, split); r.Bare = true; return r }
+	streamProp.One(t, StreamCase{Reqs: []HReq{h(0, 3, 20), b(1, 5, 0), b(2, 7, 0)}, Arrival: []int{0, 1, 2, 0}})
+	streamProp.One(t, StreamCase{Reqs: []HReq{b(0, 8, 4), b(1, 5, 0), h(2, 7, 0), b(3, 6, 19)}, Arrival: []int{0, 3, 1, 2, 3, 0}})
+	d := func(i int, stream uint16, split int, state uint32) Req {
+		return Req{HbH: 0x52000000 + uint32(i), E2E: uint32(i), Flags: rFlag, Stream: stream, Split: split, State: state}
+	}
+	streamProp.One(t, StreamCase{SM: &SMCase{Kind: cerOKAuth, CER: d(0, 1, 20, 0), DWRs: []Req{d(1, 6, 0, 0), d(2, 11, 0, 77), d(3, 0, 20, 0)}}, Arrival: []int{0, 2, 1, 3, 0, 3}})
+	streamProp.One(t, StreamCase{SM: &SMCase{Kind: cerOKAcct, CER: d(0, 0, 0, 5), DWRs: []Req{d(1, 2, 20, 9), d(2, 3, 0, 0), d(3, 4, 0, 0)}}, Arrival: []int{0, 1, 3, 2, 1}})
+}
 
 func TestC16ConcurrentAnswers(t *testing.T) { concStreamProp.Check(t, 150, 6000) }
 func TestC16StateMachineWire(t *testing.T)  { smProp.Check(t, 2000, 60000) }
